@@ -538,6 +538,31 @@ def known_findings(prop):
     return [k for k in kf.get("findings", []) if k.get("property") == prop]
 
 
+# Source files whose behaviour an engine exercises (prefix match on the anchor names).  When one of
+# them differs from the text the models were written against (anchors.json), the quick tier of that
+# engine is followed by a larger run of the thorough generator: the tie is re-validated harder on
+# exactly the code that moved.
+ENGINE_FILES = {
+    "packet": ["src/packet/"],
+    "rpc": ["src/rpc.rs"],
+    "kbucket": ["src/kbucket", "src/discv5.rs", "src/config.rs"],
+    "query": ["src/query_pool"],
+    "limiter": ["src/socket/", "src/permit_ban.rs", "src/packet/", "src/discv5.rs"],
+    "ipvote": ["src/service/ip_vote.rs"],
+    "lru": ["src/lru_time_cache.rs"],
+    "handler": ["src/handler/", "src/packet/", "src/socket/", "src/lru_time_cache.rs", "src/config.rs",
+                "src/node_info.rs", "src/rpc.rs", "src/permit_ban.rs"],
+    "service": ["src/service", "src/discv5.rs", "src/ipmode.rs", "src/kbucket", "src/config.rs",
+                "src/query_pool", "src/permit_ban.rs", "src/node_info.rs", "src/rpc.rs"],
+    "talk": ["src/service.rs", "src/discv5.rs", "src/rpc.rs", "src/node_info.rs"],
+}
+ANCHOR_ESCALATION_FACTOR = 4
+
+
+def anchor_hit(engine, anchors_changed):
+    return [f for f in anchors_changed if any(f.startswith(p) for p in ENGINE_FILES.get(engine, ["src/"]))]
+
+
 def check(prop, tier, seed, replay=None):
     t0 = time.time()
     spec = PROPS[prop]
@@ -626,9 +651,15 @@ def check(prop, tier, seed, replay=None):
                 n = e[tier]
                 etier = tier
                 agg = engine_run(prop, e["name"], seed, n, etier, with_model=drv_ok and e.get("model", True), profile=e.get("profile"))
-                if (agg["disagree"] or escalate) and not agg["monitors"] and tier == "quick":
+                moved = anchor_hit(e["name"], anchors_changed)
+                if (agg["disagree"] or escalate or moved) and not agg["monitors"] and tier == "quick":
                     # search for a concrete failing input with the thorough generator
-                    agg2 = engine_run(prop, e["name"], seed + 1, e["thorough"], "thorough", with_model=drv_ok and e.get("model", True), profile=e.get("profile"))
+                    n2 = e["thorough"]
+                    if not (agg["disagree"] or escalate):
+                        # only the source text moved: a larger sample, not the whole thorough tier
+                        n2 = min(e["thorough"], ANCHOR_ESCALATION_FACTOR * e["quick"])
+                        verdict["notes"].append("source of engine %s differs from the modelled text (%s)" % (e["name"], ", ".join(moved)))
+                    agg2 = engine_run(prop, e["name"], seed + 1, n2, "thorough", with_model=drv_ok and e.get("model", True), profile=e.get("profile"))
                     agg["monitors"] += agg2["monitors"]
                     agg["disagree"] += agg2["disagree"]
                     agg["evaluations"] += agg2["evaluations"]
